@@ -198,7 +198,10 @@ let dsname_of (nm : name) : dsname option =
 let string_of_resp = function
   | RNone -> "none"
   | RCtl (code, echo, nh) -> Printf.sprintf "ctl %s %s %s" (dec_of_n code) (string_of_cargs echo) (dec_of_n nh)
-  | RData (dn, ver, d) -> Printf.sprintf "data %s %s %s" (string_of_name (ds_name dn)) (dec_of_n ver) (string_of_dataset d)
+  | RData (dn, _, d) ->
+    (* the version (and segment) components of a dataset name, freshness and the order of entries are not constrained by the
+       property: only the name under which the dataset is published and its decoded content (as a set) are compared *)
+    Printf.sprintf "data %s * %s" (string_of_name (ds_name dn)) (string_of_dataset d)
   | RSocket -> "socket"
 
 (* parse the implementation's OBS into a resp when it has that shape *)
@@ -207,9 +210,9 @@ let resp_of_obs (fields : string list) : resp option =
   | ["none"] -> Some RNone
   | ["ctl"; code; args; nh] ->
     Some (RCtl (n_of_dec code, cargs_of_string args, (match opt_dec nh with Some x -> x | None -> N0)))
-  | ["data"; nm; ver; kind; payload] ->
+  | ["data"; nm; _; kind; payload] ->
     (match dsname_of (name_of_string nm) with
-     | Some dn -> Some (RData (dn, n_of_dec ver, dataset_of kind payload))
+     | Some dn -> Some (RData (dn, N0, dataset_of kind payload))
      | None -> None)
   | _ -> None
 
@@ -259,6 +262,7 @@ let () =
           let post = state_of_fields rib fib strat cs faces in
           (match !pending_cmd, !pending_obs, !model_st, !impl_st with
            | Some (c, cln), Some (obs, _), Some mst, Some pre ->
+             let obs = (match obs with "data" :: nm :: _ver :: rest -> "data" :: nm :: "*" :: rest | o -> o) in
              let obs_s = String.concat " " obs in
              (* 1. the model; its external functions are instantiated as follows *)
              (*    and "does the encoded dataset fit one segment" answered by what the implementation did *)
